@@ -7,6 +7,8 @@
 //! redirected by build.rs): 2-3 voter threads x 1-3 operations, every interleaving and every
 //! permitted reordering within the preemption bound.
 
+mod wt;
+
 mod loom_waker {
     use loom::sync::Mutex;
     use std::task::Waker;
@@ -694,7 +696,9 @@ fn main() {
     asys::world::set_checker(asys::oracle::check_c17_system);
     if let Some(r) = ctx.replay_request() {
         let d = &r["detail"];
-        if r["leg"].as_str().unwrap_or("").starts_with("dl-") {
+        if r["leg"].as_str().unwrap_or("").starts_with("wt-") {
+            wt::replay(&ctx, &r);
+        } else if r["leg"].as_str().unwrap_or("").starts_with("dl-") {
             c07::timeouts_replay(&ctx, &r);
         } else if r["leg"].as_str().unwrap_or("").starts_with("as-") {
             asys::grid::replay(&ctx, &r);
@@ -721,6 +725,7 @@ fn main() {
     loom_leg(&ctx);
     as_timeouts_leg(&ctx);
     c07::run_timeouts_leg(&ctx);
+    wt::run_leg(&ctx);
     ctx.assume("system legs: the clock moves by scripted partial advances (agent runtime: also while the runtime has work pending, i.e. it was not scheduled for a while; downlink runtime: only while it has nothing to do) and by full ticks at quiescence; the HTTP task never receives a request");
     ctx.assume("loom models the C11 memory orderings of the AtomicU8; the AtomicWaker of the futures crate is replaced by a mutex-protected waker cell (its register/wake contract, not its implementation)");
     ctx.assume("Voter is !Sync: each voter is used by one thread (Cell<bool> stays a plain cell)");
